@@ -1,7 +1,7 @@
 #!/bin/bash
 # Re-evaluates every seeded change under /verif/seeded against the checks named in its
 # meta.json ("property" plus "also_checked") and prints one line per (change, check).
-cd /verif
+cd "$(dirname "$0")/.."
 for d in seeded/*/; do
   n=$(basename $d)
   ids=$(python3 -c "import json;m=json.load(open('$d/meta.json'));print(' '.join([m['property']]+m.get('also_checked',[])))")
